@@ -30,6 +30,10 @@ def run(ctx):
                        'one quantized base type in the Units menus (scaled units only)']
     for name, menu, depth in MENUS[ctx.tier]:
         unitscheck.run_menu(ctx, name, menu, depth)
+    # Quantity("<amount> <symbol>") for every predefined symbol and for user symbols containing a blank
+    from checks import c18
+    tab = c18.spec_symbols() + c18.BLANKY
+    c18.judge(ctx, c18.directory_cases(tab), 'strings', tab)
     # long random histories over the whole menu (61 items), replayed on the specification (UnitsTrace.tla)
     from checks import unitstrace
     unitstrace.run(ctx, 150 if ctx.tier == 'quick' else 3000, 30 if ctx.tier == 'quick' else 40)
@@ -39,4 +43,7 @@ def replay(ctx, rp):
     if rp['replay'].get('kind') == 'unitstrace':
         from checks import unitstrace
         return unitstrace.replay(ctx, rp)
+    if rp['replay'].get('kind') == 'text':
+        from checks import c18
+        return c18.replay(ctx, rp)
     unitscheck.replay_path(ctx, rp)
